@@ -20,6 +20,8 @@ def tables : List (String → List String → Option String) := []
 /-- Stateful groups, selected by a first line `#mode <name>`. -/
 def modes : List Mode := []
   ++ [Drv.Schema.mode]
+  ++ [Drv.CratesV2.mode]
+  ++ [Drv.CratesV2Spec.mode]
 
 def dispatch (line : String) : String :=
   match tokens line with
